@@ -374,7 +374,7 @@ Section HANDLER.
   Proof.
     induction evs as [|ev evs IH]; intros b Hb; cbn [sent_batches].
     - constructor; [apply batch_inv_rect; exact Hb|constructor].
-    - destruct ev as [s| |]; [|constructor|constructor].
+    - destruct ev as [s| |t]; [|constructor|constructor].
       destruct (on_span_cols h sf af b s) as [b' sent| |] eqn:E; [|constructor|constructor].
       destruct (on_span_cols_inv _ _ _ _ Hb E) as [Hb' Hsent].
       apply Forall_app. split; [exact Hsent|apply IH; exact Hb'].
@@ -574,4 +574,32 @@ Proof.
   intros body decoded H. unfold bytes_read, alloc_bound_bytes, alloc_bound_kb. cbn [String.eqb].
   pose proof (Z.mul_div_le body 1024 ltac:(lia)). pose proof (Z.mod_pos_bound body 1024 ltac:(lia)).
   pose proof (Z.div_mod body 1024 ltac:(lia)). lia.
+Qed.
+
+(* ------------------------------------------------------------------------------------------ *)
+(** * 9. What the model expects of a pipefuzz case satisfies the property *)
+Lemma rect_all_equal : forall m, rectangular m = true -> all_equal (map snd m) = true.
+Proof.
+  intros [|kv m] H; [reflexivity|]. cbn [rectangular rect forallb] in H. cbn [map all_equal].
+  apply andb_true_iff in H as [_ H]. induction m as [|x m IH]; [reflexivity|].
+  cbn [forallb map] in *. apply andb_true_iff in H as [H1 H2]. rewrite (IH H2), andb_true_r.
+  apply N.eqb_eq in H1. rewrite H1. apply N.eqb_refl.
+Qed.
+
+Lemma all_equal_repeat : forall x n, all_equal (repeat x n) = true.
+Proof.
+  intros x [|n]; [reflexivity|]. cbn [repeat all_equal]. induction n as [|n IH]; [reflexivity|].
+  cbn [repeat forallb]. now rewrite N.eqb_refl, IH.
+Qed.
+
+Lemma expected_batches_rect : forall h sf af cs ca, handler_ok h sf af cs ca = true -> forall c,
+  forallb (fun ob => all_equal (snd ob) && (fst ob <? 3)%Z) (snd (pipe_expected h sf af c)) = true.
+Proof.
+  intros h sf af cs ca Hok c. unfold pipe_expected. destruct (pc_spans c) as [spans|]; cbn [snd].
+  - pose proof (sent_batches_rect h sf af cs ca Hok (map CvSpan spans ++ pend_event (pc_end c)) (batch0 sf af) (batch0_inv sf af)) as H.
+    rewrite forallb_app. rewrite Forall_forall in H. apply andb_true_iff. split; apply forallb_forall; intros ob Hin;
+      apply in_map_iff in Hin as [b [<- Hb]]; specialize (H b Hb); unfold batch_rect in H; apply andb_true_iff in H as [H1 H2];
+      cbn [fst snd]; rewrite andb_true_r; apply rect_all_equal; assumption.
+  - apply forallb_forall. intros ob Hin. apply in_map_iff in Hin as [rows [<- _]]. cbn [fst snd].
+    now rewrite all_equal_repeat.
 Qed.
